@@ -161,3 +161,34 @@ Fixpoint it_pull (fuel : nat) (req : option shape_type) (st : rstate)
           Ret (item :: fst (fst y), snd (fst y), snd y)
       end
   end.
+
+(** ** Histories of reader calls (what the correspondence check runs and what
+    C04, C14, C15 quantify over). *)
+Inductive rcall :=
+| RIter (fuel : nat)        (* a new iterator, pulled at most [fuel] times *)
+| RNth (i : Z)              (* read_nth_shape_as(i) *)
+| RSeek (k : Z)             (* seek(k) *)
+| RCount                    (* shape_count() *)
+| RHint.                    (* size_hint() of a new iterator *)
+
+Inductive rout :=
+| OItems (items : list (res shape)) (ended : bool)
+| ONthR (o : option (res shape))
+| OSeekR (r : res unit)
+| OCountR (r : res Z)
+| OHintR (h : option Z).
+
+Definition r_call (req : option shape_type) (st : rstate) (c : rcall) : prog (rout * rstate) :=
+  match c with
+  | RIter fuel => x <-- it_pull fuel req st ;; Ret (OItems (fst (fst x)) (snd (fst x)), snd x)
+  | RNth i => x <-- r_read_nth req st i ;; Ret (ONthR (fst x), snd x)
+  | RSeek k => x <-- r_seek st k ;; Ret (OSeekR (fst x), snd x)
+  | RCount => Ret (OCountR (r_count st), st)
+  | RHint => Ret (OHintR (size_hint st), st)
+  end.
+
+Fixpoint r_calls (req : option shape_type) (st : rstate) (cs : list rcall) : prog (list rout * rstate) :=
+  match cs with
+  | [] => Ret ([], st)
+  | c :: r => x <-- r_call req st c ;; y <-- r_calls req (snd x) r ;; Ret (fst x :: fst y, snd y)
+  end.
